@@ -518,7 +518,10 @@ def check_conditioning(ctx, fi, be):
         import re
         body_ = Pn[len(used) + 1:] if Pn.startswith(used + '&') else Pn[len(used) + len('.intersection('):-1]
         m_ = re.fullmatch(r'(max|min)\(\[(\w+)for\2in(.+?)if%sin\2\],key=lambda(\w+):(.+)\)' % re.escape(col), body_)
-        if m_ and (m_.group(3) == cl_t.replace(' ', '') or m_.group(3) == 'cliques') and cl_t.replace(' ', '') in ('[set(cl)forclinself.cliques]', 'cliques'):
+        lst_ = m_.group(3) if m_ else ''
+        if m_ and re.fullmatch(r'\w+', lst_) and entry.get(lst_) is not None:
+            lst_ = T(entry[lst_]).replace(' ', '')
+        if m_ and re.fullmatch(r'\[set\((\w+)\)for\1inself\.cliques\]', lst_):
             how, v_, key = m_.group(1), m_.group(4), m_.group(5)
             overlap = key in ('len(%s&%s)' % (v_, used), 'len(%s&%s)' % (used, v_), 'len(%s.intersection(%s))' % (v_, used),
                               'len(%s.intersection(%s))' % (used, v_))
